@@ -32,3 +32,16 @@ MANIFEST_TEXT["C06"] = {
     "note": "Trusts TLC, the Json module, serde_yaml rendering, and the engine's own `not` for three-valued observation (itself one of the enumerated forms). Bounded arity.",
     "technique": "TLA+ spec + TLC model checking; TLC-enumerated cases replayed into the engine; recorded traces validated by TLC (TraceTau)",
 }
+
+PROPS["C02"] = {
+    "title": "Verdicts follow the documented rule language",
+    "models": lambda tier: [],
+    "gens": lambda tier: [{"topic": "lang", "n": q(tier, 1500, 30000)}],
+    "rules": ["oracle", "tri_oracle", "tri_both", "load_outcome", "load_panic", "match_panic"],
+    "chunk": 1500,
+}
+MANIFEST_TEXT["C02"] = {
+    "level": "todo",
+    "note": "todo",
+    "technique": "TLA+ language-layer semantics (TauLang) evaluated by TLC on traces recorded from the engine",
+}
